@@ -58,15 +58,16 @@ def halfWidth (r : PyFloat) (cs : Rat) (hw : Rat → Int) : Except String Int :=
   | .ninf => .error "OverflowError"
   | .fin q => .ok (hw q)
 
-/-- `circle_kernel(cx, cy, radius)` given `d = _get_distance(str(radius))` -/
-def circleKernel (cx cy : Rat) (d : Dist) : Except String (KGrid F) :=
+/-- `circle_kernel(cx, cy, radius)` given `d = _get_distance(str(radius))`; `rnd` rounds the float
+    division inside the generated half-width expressions -/
+def circleKernel (rnd : Rat → Rat) (cx cy : Rat) (d : Dist) : Except String (KGrid F) :=
   match d with
   | .err _ => .error "ValueError"
   | .val r =>
-    match halfWidth r cx (fun q => Gen.circle_half_w q cx cy) with
+    match halfWidth r cx (fun q => Gen.circle_half_w rnd q cx cy) with
     | .error e => .error e
     | .ok hw =>
-      match halfWidth r cy (fun q => Gen.circle_half_h q cx cy) with
+      match halfWidth r cy (fun q => Gen.circle_half_h rnd q cx cy) with
       | .error e => .error e
       | .ok hh => ellipseKernel hw hh
 
@@ -96,11 +97,11 @@ def annulusOf (o n : KGrid F) : Except String (KGrid F) :=
     else .ok ⟨o.rows, o.cols, fun i j => combine (o.cell i j) (p.cell i j)⟩
 
 /-- `annulus_kernel(cx, cy, outer_radius, inner_radius)` given the two parsed radii -/
-def annulusKernel (cx cy : Rat) (dOuter dInner : Dist) : Except String (KGrid F) :=
-  match circleKernel (F := F) cx cy dOuter with
+def annulusKernel (rnd : Rat → Rat) (cx cy : Rat) (dOuter dInner : Dist) : Except String (KGrid F) :=
+  match circleKernel (F := F) rnd cx cy dOuter with
   | .error e => .error e
   | .ok o =>
-    match circleKernel (F := F) cx cy dInner with
+    match circleKernel (F := F) rnd cx cy dInner with
     | .error e => .error e
     | .ok n => annulusOf o n
 
